@@ -239,7 +239,7 @@ def c20(ctx):
     q = ctx.quick()
     ctx.model("mc/MC_Snapshot.tla", "MC_Snapshot.cfg", workers=8)
     ctx.model("mc/MC_Snapshot.tla", "MC_Snapshot_NoLock.cfg", workers=4, expect_violation="SnapshotAtomic", label="MC_Snapshot_NoLock (non-vacuity)")
-    ctx.sim("snap", 6 if q else 60, "mon/MonSnap.tla", "MonSnap.cfg", subcmd="snap", batch=3, extra_args=["--pause-us", "20"],
+    ctx.sim("snap", 12 if q else 90, "mon/MonSnap.tla", "MonSnap.cfg", subcmd="snap", batch=3, extra_args=["--pause-us", "20"],
             nontrivial=lambda s: s.get("events", 0) > 100, par=4)
     ctx.write_evidence("model_checking", "model: Snapshot.tla - every interleaving of the writer's sub-steps, 2 readers' sub-steps and the clearer under the RwLock discipline (and the lock-free instance, which must fail); "
                        "implementation: distinct concurrent runs (real tracer thread over the simulated socket + 3 reader threads + 1 clearer thread, 1200-2000 rounds each) whose call histories TLC checks for linearizability against 'rounds applied since the last clear'",
@@ -317,6 +317,11 @@ def tui_common(ctx, cfg, fams):
     ctx.model("mc/MC_Tui.tla", "MC_Tui_2.cfg", workers=8)
     # spec -> impl -> spec: behaviours of Tui.tla replayed into the real event loop; the log is checked by the
     # property monitor and validated against Tui.tla itself (ConfTui)
+    # directed scripts: the counterexamples TLC found on Tui.tla / Hosts.tla for defects since repaired (F21, F22, F27), and
+    # the boundary walks of Settings.tla (every tab: past the last item, the column editor at the last and the first row)
+    reg = os.path.join(os.path.dirname(os.path.abspath(__file__)), "..", "spec", "mc", "tui_directed.scripts")
+    ctx.sim("script0", sum(1 for _ in open(reg)), TUI, cfg, package="vt", subcmd="tui", batch=10 ** 9, env={"VT_SCRIPTS": os.path.abspath(reg)},
+            conf=("conf/ConfSettings.tla", "ConfSettings.cfg"))
     for k in (1, 2):
         path, n = gen_scripts(ctx, k, 60 if q else 1500)
         ctx.sim("script%d" % k, n, TUI, cfg, package="vt", subcmd="tui", batch=10 ** 9, seed_off=k,
@@ -327,6 +332,8 @@ def tui_common(ctx, cfg, fams):
 
 
 def c17(ctx):
+    ctx.model("mc/MC_Hosts.tla", "MC_Hosts.cfg", workers=2)
+    ctx.model("mc/MC_Hosts.tla", "MC_Hosts_legacy.cfg", workers=2, expect_violation="LimitOK", label="MC_Hosts_legacy (the defect repaired by F27 must show)")
     ctx.model("mc/MC_Settings.tla", "MC_Settings.cfg", workers=4)
     ctx.model("mc/MC_Settings.tla", "MC_Settings_bad.cfg", workers=2, expect_violation="ItemOK", label="MC_Settings_bad (non-vacuity: a declared item count above the rendered rows)")
     tui_common(ctx, "MonTui_C17.cfg", [("tui", 240, 6000), ("long", 8, 200)])
